@@ -162,11 +162,17 @@ func checkC16(c *Ctx) error {
 		doc := readme[ai.name]
 		for _, user := range []bool{false, true} {
 			for customKind := 0; customKind <= 2; customKind++ { // 0: none, 1: absolute --path, 2: relative --path
-				for baseClass := 0; baseClass <= 3; baseClass++ {
-					if !c.Thorough() && idx > 0 && baseClass%2 == 1 {
+				// base states 0..3 (absent/directory/file/unreadable); 4..6: directory holding a
+				// previous installation (same content with mode 0600, older content, same content read-only)
+				for baseState := 0; baseState <= 6; baseState++ {
+					baseClass, prior := baseState, 0
+					if baseState >= 4 {
+						baseClass, prior = 1, baseState-3
+					}
+					if !c.Thorough() && idx > 0 && (baseState == 1 || baseState == 3 || baseState == 5) {
 						continue
 					}
-					idx, ai, user, baseClass, customKind := idx, ai, user, baseClass, customKind
+					idx, ai, user, baseClass, customKind, prior := idx, ai, user, baseClass, customKind, prior
 					var cpTerm, cwdTerm, homeTerm string
 					k.E.Run(fn, func(ps *symx.PathState) []any {
 						m := symx.NewFSModel(ps, "trace", srcRoot)
@@ -180,8 +186,38 @@ func checkC16(c *Ctx) error {
 						m.Home, m.Cwd = home, cwd
 						cwdTerm, homeTerm = cwd.T, home.T
 						ps.User = m
+						setPrior := func(base any) {
+							if prior == 0 {
+								return
+							}
+							skillDir := symx.JoinPath(base, ai.skill)
+							for _, rel := range tree.rel {
+								data, _ := os.ReadFile(filepath.Join(srcRoot, "skills/kessoku-di", rel))
+								switch prior {
+								case 1:
+									m.SetPrior(symx.JoinPath(skillDir, rel), data, 0o600)
+								case 2:
+									m.SetPrior(symx.JoinPath(skillDir, rel), append([]byte("old "), data...), 0o644)
+								case 3:
+									m.SetPrior(symx.JoinPath(skillDir, rel), data, 0o444)
+								}
+							}
+						}
 						if customKind == 0 {
 							cpTerm = ""
+							sub := ai.project
+							root := any(cwd)
+							if user {
+								sub, root = ai.user, any(home)
+							}
+							if doc != nil {
+								if user {
+									sub = doc.user
+								} else {
+									sub = doc.project
+								}
+							}
+							setPrior(symx.JoinPath(root, sub))
 							return []any{symx.IntArg(idx), "", user}
 						}
 						cp := ps.Fresh(symx.SString, "--path")
@@ -189,7 +225,9 @@ func checkC16(c *Ctx) error {
 						ps.Assume(`(not (str.suffixof "/" ` + cp.T + `))`)
 						if customKind == 1 {
 							ps.Assume(`(str.prefixof "/" ` + cp.T + `)`)
+							setPrior(cp)
 						} else {
+							setPrior(symx.JoinPath(cwd, cp))
 							ps.Assume(`(not (str.prefixof "/" ` + cp.T + `))`)
 							ps.Assume(`(not (str.prefixof "." ` + cp.T + `))`)
 							ps.Assume(`(> (str.len ` + cp.T + `) 0)`)
@@ -235,7 +273,7 @@ func checkC16(c *Ctx) error {
 							}
 							return out
 						}
-						caseName := fmt.Sprintf("custom=%v(kind %d) user=%v base=%d", custom, customKind, user, baseClass)
+						caseName := fmt.Sprintf("custom=%v(kind %d) user=%v base=%d prior=%d", custom, customKind, user, baseClass, prior)
 						if baseClass >= 2 {
 							oblig += 2
 							if symx.IsNilIface(ret1) {
@@ -277,12 +315,7 @@ func checkC16(c *Ctx) error {
 						for _, rel := range tree.rel {
 							oblig++
 							key := symx.TermOf(symx.JoinPath(expSkill, rel))
-							var found *symx.FSNode
-							for nk, n := range m.Nodes {
-								if nk == key || symx.TermOf(m.PathVals[nk]) == key {
-									found = n
-								}
-							}
+							found := m.Effective(symx.JoinPath(expSkill, rel))
 							if found == nil {
 								// syntactic mismatch: ask the solver whether some node's path equals the expected one
 								for nk, n := range m.Nodes {
